@@ -259,12 +259,22 @@ def configure_command(cfg, node, api, log, prefix=""):
             cfg.default()
         cfg.anonymous()
     elif k == "hidden":
+        if roundabout:
+            cfg.hide(False)
+            cfg.disable()
+            cfg.enable()
         cfg.hide()
     elif k == "disabled":
+        if roundabout:
+            cfg.enable()
         cfg.disable()
     elif roundabout:
         cfg.anonymous()
         cfg.default(False)
+        cfg.disable()  # switched off and on again, hidden and shown again: a plain command after all
+        cfg.enable()
+        cfg.hide()
+        cfg.hide(False)
     for a in node["args"]:
         fl = (Argument.REQUIRED if a["kind"] == "req" else Argument.OPTIONAL) | (Argument.MULTI_VALUED if a["multi"] else 0)
         cfg.add_argument(a["name"], fl, a["desc"] if a["desc"] != "" else None, a["default"])
